@@ -3,7 +3,7 @@
 // injectable faults. Deadlines are ignored (time is not a source of
 // nondeterminism inside an execution).
 //
-// All state of a pipe is guarded by one real mutex. Under the cooperative
+// Each direction of a pipe is guarded by its own real mutex. Under the cooperative
 // scheduler it is never contended; it exists so that the race detector sees
 // the happens-before edges a real connection provides (bytes written are
 // visible to the reader) and none of the harness's own accesses as races.
@@ -28,6 +28,7 @@ var (
 
 // dir is one direction of the pipe.
 type dir struct {
+	mu      sync.Mutex // guards this direction's queue and flags (and the per-end fields of the end that writes / reads it)
 	buf     []byte
 	sync    bool // writer returns only once its bytes were consumed (net.Pipe)
 	wclosed bool // writing end closed: reader sees EOF after draining
@@ -42,7 +43,6 @@ func (d *dir) id() uintptr { return uintptr(unsafe.Pointer(d)) }
 type Conn struct {
 	Name string
 	r, w *dir
-	mu   *sync.Mutex
 	// FaultyWrites / FaultyReads turn every Write / Read into a choice
 	// point {succeed, fail} costing one deviation for the failure.
 	FaultyWrites bool
@@ -60,9 +60,8 @@ func Pipe(sync bool) (*Conn, *Conn) { return PipeDirs(sync, sync) }
 // PipeDirs is Pipe with the blocking behaviour chosen per direction
 // (A to B, B to A).
 func PipeDirs(syncAB, syncBA bool) (*Conn, *Conn) {
-	mu := &sync.Mutex{}
 	ab, ba := &dir{sync: syncAB}, &dir{sync: syncBA}
-	return &Conn{Name: "A", r: ba, w: ab, mu: mu}, &Conn{Name: "B", r: ab, w: ba, mu: mu}
+	return &Conn{Name: "A", r: ba, w: ab}, &Conn{Name: "B", r: ab, w: ba}
 }
 
 func frameLen(b []byte) (int, bool) {
@@ -75,19 +74,19 @@ func frameLen(b []byte) (int, bool) {
 
 func (c *Conn) Read(p []byte) (int, error) {
 	d := c.r
-	c.mu.Lock()
+	d.mu.Lock()
 	faulty := c.FaultyReads
-	c.mu.Unlock()
+	d.mu.Unlock()
 	if faulty {
 		if vsched.Choose("conn.Read?"+c.Name, 2, true) == 1 {
-			c.mu.Lock()
+			d.mu.Lock()
 			d.readErr = ErrInjectedRead
-			c.mu.Unlock()
+			d.mu.Unlock()
 		}
 	}
 	vsched.WaitFor("conn.Read:"+c.Name, d.id(), c.condReadable)
-	c.mu.Lock()
-	defer c.mu.Unlock()
+	d.mu.Lock()
+	defer d.mu.Unlock()
 	if d.rclosed {
 		return 0, io.ErrClosedPipe
 	}
@@ -112,35 +111,35 @@ func (c *Conn) Read(p []byte) (int, error) {
 func (c *Conn) Write(p []byte) (int, error) {
 	d := c.w
 	fail := 0
-	c.mu.Lock()
+	d.mu.Lock()
 	faulty := c.FaultyWrites
-	c.mu.Unlock()
+	d.mu.Unlock()
 	if faulty {
 		fail = vsched.Choose("conn.Write?"+c.Name, 2, true)
 	} else {
 		vsched.Yield("conn.Write:"+c.Name, d.id())
 	}
-	c.mu.Lock()
+	d.mu.Lock()
 	if fail == 1 {
 		c.writeErr = ErrInjectedWrite
 	}
 	if c.closed || d.rclosed {
-		c.mu.Unlock()
+		d.mu.Unlock()
 		return 0, io.ErrClosedPipe
 	}
 	if c.writeErr != nil {
 		err := c.writeErr
-		c.mu.Unlock()
+		d.mu.Unlock()
 		return 0, err
 	}
 	d.buf = append(d.buf, p...)
 	d.frames = append(d.frames, append([]byte(nil), p...))
 	sync := d.sync
-	c.mu.Unlock()
+	d.mu.Unlock()
 	if sync {
 		vsched.WaitFor("conn.WriteDrain:"+c.Name, d.id(), c.condDrained)
-		c.mu.Lock()
-		defer c.mu.Unlock()
+		d.mu.Lock()
+		defer d.mu.Unlock()
 		if len(d.buf) > 0 {
 			return len(p) - len(d.buf), io.ErrClosedPipe
 		}
@@ -158,35 +157,43 @@ func (c *Conn) Close() error {
 // CloseNow closes without a scheduling point (for harness code that has
 // just passed one).
 func (c *Conn) CloseNow() {
-	c.mu.Lock()
-	defer c.mu.Unlock()
+	c.w.mu.Lock()
 	c.closed = true
 	c.w.wclosed = true
+	c.w.mu.Unlock()
+	c.r.mu.Lock()
 	c.r.rclosed = true
+	c.r.mu.Unlock()
 }
 
 // SetFaulty switches fault choice points on or off.
 func (c *Conn) SetFaulty(reads, writes bool) {
-	c.mu.Lock()
-	defer c.mu.Unlock()
-	c.FaultyReads, c.FaultyWrites = reads, writes
+	c.r.mu.Lock()
+	c.FaultyReads = reads
+	c.r.mu.Unlock()
+	c.w.mu.Lock()
+	c.FaultyWrites = writes
+	c.w.mu.Unlock()
 }
 
 // Faulted reports whether an injected read or write error has struck this end.
 func (c *Conn) Faulted() bool {
-	c.mu.Lock()
-	defer c.mu.Unlock()
-	return c.writeErr != nil || c.r.readErr != nil
+	c.w.mu.Lock()
+	we := c.writeErr != nil
+	c.w.mu.Unlock()
+	c.r.mu.Lock()
+	defer c.r.mu.Unlock()
+	return we || c.r.readErr != nil
 }
 
 // FailReads makes every later Read of this end fail with err.
-func (c *Conn) FailReads(err error) { c.mu.Lock(); c.r.readErr = err; c.mu.Unlock() }
+func (c *Conn) FailReads(err error) { c.r.mu.Lock(); c.r.readErr = err; c.r.mu.Unlock() }
 
 // FailWrites makes every later Write of this end fail with err.
-func (c *Conn) FailWrites(err error) { c.mu.Lock(); c.writeErr = err; c.mu.Unlock() }
+func (c *Conn) FailWrites(err error) { c.w.mu.Lock(); c.writeErr = err; c.w.mu.Unlock() }
 
 // Written returns every Write call's bytes on this end, in order.
-func (c *Conn) Written() [][]byte { c.mu.Lock(); defer c.mu.Unlock(); return c.w.frames }
+func (c *Conn) Written() [][]byte { c.w.mu.Lock(); defer c.w.mu.Unlock(); return c.w.frames }
 
 // ReadFrame blocks until a whole 9P frame (size[4] + body) is available and
 // pops it atomically. It returns io.EOF when the peer closed at a frame
@@ -201,8 +208,8 @@ func (c *Conn) ReadFrame() ([]byte, error) {
 
 // FrameReady reports whether a complete frame can be read without blocking.
 func (c *Conn) FrameReady() bool {
-	c.mu.Lock()
-	defer c.mu.Unlock()
+	c.r.mu.Lock()
+	defer c.r.mu.Unlock()
 	_, ok := frameLen(c.r.buf)
 	return ok
 }
@@ -216,8 +223,8 @@ func (c *Conn) ReadFrameOr(stop func() bool) ([]byte, error) {
 	d := c.r
 	w := &frameWait{c: c, stop: stop}
 	vsched.WaitFor("conn.ReadFrame:"+c.Name, d.id(), w.cond)
-	c.mu.Lock()
-	defer c.mu.Unlock()
+	d.mu.Lock()
+	defer d.mu.Unlock()
 	if n, full := frameLen(d.buf); full {
 		f := append([]byte(nil), d.buf[:n]...)
 		d.buf = d.buf[n:]
@@ -275,9 +282,9 @@ func (w *frameWait) cond() bool {
 // TryFrames pops all complete frames currently readable without blocking
 // and without a scheduling point (for oracles at quiescence).
 func (c *Conn) TryFrames() [][]byte {
-	c.mu.Lock()
-	defer c.mu.Unlock()
 	d := c.r
+	d.mu.Lock()
+	defer d.mu.Unlock()
 	var out [][]byte
 	for {
 		n, full := frameLen(d.buf)
